@@ -110,10 +110,12 @@ def run(tier):
         chk.violation(f"C19|spec-theorem|{','.join(r0.violated)}", "the statutory shape violates a step property in the abstract model", {"out": r0.out[-2000:]})
     else:
         chk.add_mc(r0, "MC_Contrib")
-    dates = change_dates("2015-01-01" if quick else "2003-04-01")
-    if quick:
-        dates = sorted(set(dates[-4:]) | set(rnd.sample(dates[:-4], min(4, len(dates) - 4))) | {"2015-01-01", "2017-01-01"})
-    jobs = [(d, ost, rnd.randrange(1 << 30), 50.0 if quick else 20.0) for d in dates for ost in ((False, True) if not quick else (rnd.random() < 0.5,))]
+    # every change date: entries of sozialv_beitr.yaml and the starts of dated rule versions of the tree under test
+    dates = sorted(set(change_dates("2015-01-01" if quick else "2003-04-01")) | set(gs.change_dates("2015-01-01", "2025-12-31", skip_2017h1=False)))
+    fine = set(dates)
+    if quick:   # quick: all change dates >= 2015, a finer wage grid on the last four, four seeded ones, 2015 and 2017
+        fine = set(dates[-4:]) | set(rnd.sample(dates[:-4], min(4, len(dates) - 4))) | {"2015-01-01", "2017-01-01"}
+    jobs = [(d, ost, rnd.randrange(1 << 30), (50.0 if d in fine else 150.0) if quick else 20.0) for d in dates for ost in ((False, True) if not quick else (rnd.random() < 0.5,))]
     outs = pool_map(sweep_job, jobs)
     tjobs, metas = [], []
     k = 0
